@@ -238,6 +238,9 @@ def mk_reconfigured():
 DOC_A = "intro *e*\n\n* item\n  > q\n\n[x](http://a.example/é%20?q=1 \"T\") ![p](/i.png)\n\n[r]: /ref-a\n\n[r]\n"
 DOC_B = "some text\n# Title\nmore text\n> quote\n\n1. one\n- dash\n\n[beta](http://b.example/two/longer/path) `c` **s**\n\n[r]: /ref-b 'tb'\n\n[r] <http://b.c/é%20?q=1>\n"
 DOC_C = "| a | b |\n|---|---|\n| 1 | ~~2~~ |\n\n```py\nx\n```\n"
+# state of the inline parser that must be per call: backtick closer cache, skipToken memo, delimiter lists, link title result
+DOC_D = "Write `` in prose, then run `make` and `make test` to check [x](/u 't1') *a* [[n]](/v).\n"
+DOC_E = "A stray `` and a lone ` here ![i](/s \"t2\") **b** [[[m]]](/w 'tw').\n"
 
 
 def solo(make_md, doc):
@@ -304,10 +307,10 @@ def run(ctx) -> int:
 
     makers = [("fresh commonmark", mk_fresh()), ("fresh js-default+ext", mk_fresh("js-default", {"typographer": True})),
               ("reconfigured", mk_reconfigured)]
-    pairs = [(DOC_A, DOC_B), (DOC_B, DOC_C)]
+    pairs = [(DOC_A, DOC_B), (DOC_D, DOC_E), (DOC_B, DOC_C)]
     # (i-a) every instruction boundary inside ruler.py during A's first use, B nested
     for mname, mk in makers:
-        for da, db in pairs[: 1 if tier == "quick" else 2]:
+        for da, db in pairs[: 1 if tier == "quick" else 3]:
             sa, sb = solo(mk, da), solo(mk, db)
             n = count_events(mk, da, "instruction", ruler_codes)
             ks = range(1, n + 1)
